@@ -89,6 +89,37 @@ func c21MakeType(c *fw.Ctx) (reflect.Type, []c21Field) {
 		fields = append(fields, f)
 		sf = append(sf, reflect.StructField{Name: f.goName, Type: f.typ, Tag: reflect.StructTag(c21Tag(f))})
 	}
+	if n >= 2 && c.Rng.Intn(3) == 0 {
+		// a run of >= 2 fields moves into a chain of 1-7 anonymously embedded structs; the flattened declaration order stays the same
+		a := c.Rng.Intn(n - 1)
+		b := a + 2 + c.Rng.Intn(n-a-1)
+		depth := 1 + c.Rng.Intn(7)
+		c.Inc(fmt.Sprintf("embedded.depth%d", depth))
+		var build func(seg []reflect.StructField, d int) reflect.Type
+		build = func(seg []reflect.StructField, d int) reflect.Type {
+			if d <= 1 {
+				return reflect.StructOf(seg)
+			}
+			// keep at least two fields for the inner levels
+			p := c.Rng.Intn(len(seg) - 1)
+			q := p + 2 + c.Rng.Intn(len(seg)-p-1)
+			inner := build(seg[p:q], d-1)
+			var out []reflect.StructField
+			out = append(out, seg[:p]...)
+			out = append(out, reflect.StructField{Name: fmt.Sprintf("Emb%d", d), Type: inner, Anonymous: true})
+			out = append(out, seg[q:]...)
+			return reflect.StructOf(out)
+		}
+		inner := build(append([]reflect.StructField(nil), sf[a:b]...), depth)
+		var out []reflect.StructField
+		out = append(out, sf[:a]...)
+		out = append(out, reflect.StructField{Name: "Emb0", Type: inner, Anonymous: true})
+		out = append(out, sf[b:]...)
+		sf = out
+		for i := a; i < b; i++ {
+			fields[i].embedded = true
+		}
+	}
 	return reflect.StructOf(sf), fields
 }
 
@@ -305,12 +336,7 @@ func runC21(c *fw.Ctx, idx int) {
 		t, fields = c21MakeType(c)
 	}
 	v := reflect.New(t).Elem()
-	fv := func(f c21Field) reflect.Value {
-		if f.embedded {
-			return v.FieldByName("C21Inner").FieldByName(f.goName)
-		}
-		return v.FieldByName(f.goName)
-	}
+	fv := func(f c21Field) reflect.Value { return v.FieldByName(f.goName) } // promoted fields of embedded structs included
 	for _, f := range fields {
 		c21FillValue(c, fv(f))
 		if f.tagName != "" {
@@ -370,24 +396,14 @@ func runC21(c *fw.Ctx, idx int) {
 	}
 	// ---- unmarshal side: source values for every non-omit field, re-spelled keys, unknown keys
 	src := reflect.New(t).Elem()
-	sfv := func(f c21Field) reflect.Value {
-		if f.embedded {
-			return src.FieldByName("C21Inner").FieldByName(f.goName)
-		}
-		return src.FieldByName(f.goName)
-	}
+	sfv := func(f c21Field) reflect.Value { return src.FieldByName(f.goName) }
 	type entry struct {
 		key string
 		val []ev.Event
 	}
 	var entries []entry
 	expect := reflect.New(t).Elem()
-	efv := func(f c21Field) reflect.Value {
-		if f.embedded {
-			return expect.FieldByName("C21Inner").FieldByName(f.goName)
-		}
-		return expect.FieldByName(f.goName)
-	}
+	efv := func(f c21Field) reflect.Value { return expect.FieldByName(f.goName) }
 	usedKeys := map[string]bool{}
 	norm := func(s string) string { return strings.ToLower(strings.ReplaceAll(s, "_", "")) }
 	for _, f := range fields {
